@@ -213,6 +213,67 @@ static const char *stress_mp (size_t cap, size_t chunk, unsigned long long total
 	return res;
 }
 
+/* supporting run, clear against a reader: a large buffer is filled with position-unique NON-ZERO bytes; a consumer thread
+ * (own handle) drains it in `chunk`-byte reads and checks that every byte it gets is the next byte of the stream; after
+ * its 16th read the main thread clears the buffer through a third handle.  Clear being atomic with respect to reads, a
+ * read returns bytes that were written (the stream, in order) or nothing — never bytes nobody wrote. */
+struct clr { PShmBuffer *c; size_t chunk; unsigned long long total; atomic_int reads; atomic_int bad; atomic_int stop; };
+static unsigned char nz_byte (unsigned long long pos) { return (unsigned char) (stream_byte (pos) | 1); }
+static void *clr_consumer (void *arg) {
+	struct clr *m = arg;
+	unsigned char *b = malloc (m->chunk);
+	unsigned long long got = 0;
+	while (!atomic_load (&m->stop) && !atomic_load (&m->bad)) {
+		pint r = p_shm_buffer_read (m->c, b, m->chunk, NULL);
+		if (r < 0) { atomic_store (&m->bad, 1); break; }
+		if (r == 0) { if (atomic_load (&m->reads) >= 16) break; sched_yield (); continue; }
+		for (int i = 0; i < r; ++i) if (b[i] != nz_byte (got + (unsigned long long) i)) { atomic_store (&m->bad, b[i] == 0 ? 2 : 3); break; }
+		got += (unsigned long long) r;
+		atomic_fetch_add (&m->reads, 1);
+	}
+	free (b);
+	return NULL;
+}
+static const char *stress_clear (size_t cap, size_t chunk, int rounds) {
+	static char res[96];
+	if (chunk < 1 || chunk > cap || rounds < 1) return "stress bad-arguments";
+	for (int round = 0; round < rounds; ++round) {
+		char nm[128]; snprintf (nm, sizeof nm, "pvsbx-%d-%llx-%d", (int) getpid (), run_tag (), gen++);
+		PShmBuffer *w = p_shm_buffer_new (nm, cap, NULL);
+		if (!w) return round ? "stress ok" : "stress setup-failed";      /* /dev/shm too small for this capacity: nothing to judge */
+		struct clr m; memset (&m, 0, sizeof m);
+		m.chunk = chunk; m.c = p_shm_buffer_new (nm, cap, NULL);
+		PShmBuffer *k = p_shm_buffer_new (nm, 0, NULL);
+		size_t blk = 1 << 20; unsigned char *b = malloc (blk);
+		unsigned long long sent = 0; int wok = 1;
+		while (sent < cap && wok) {
+			size_t n = blk; if (n > cap - sent) n = (size_t) (cap - sent);
+			for (size_t i = 0; i < n; ++i) b[i] = nz_byte (sent + i);
+			if (p_shm_buffer_write (w, b, n, NULL) != (pssize) n) wok = 0;
+			sent += n;
+		}
+		free (b);
+		int bad = 0;
+		if (wok && m.c && k) {
+			pthread_t th; pthread_create (&th, NULL, clr_consumer, &m);
+			time_t t0 = time (NULL);
+			while (atomic_load (&m.reads) < 16 && !atomic_load (&m.bad) && time (NULL) - t0 < 10) sched_yield ();
+			p_shm_buffer_clear (k);
+			atomic_fetch_add (&m.reads, 16);
+			t0 = time (NULL);
+			while (time (NULL) - t0 < 1 && !atomic_load (&m.bad) && p_shm_buffer_get_used_space (k, NULL) > 0) sched_yield ();
+			atomic_store (&m.stop, 1);
+			pthread_join (th, NULL);
+			bad = atomic_load (&m.bad);
+		}
+		if (k) p_shm_buffer_free (k);
+		if (m.c) p_shm_buffer_free (m.c);
+		p_shm_buffer_take_ownership (w); p_shm_buffer_free (w);
+		if (bad) { snprintf (res, sizeof res, "stress CLEAR-VS-READ(%d: a read returned %s)", bad, bad == 2 ? "zero bytes that were never written" : bad == 3 ? "bytes out of order" : "an error"); return res; }
+	}
+	return "stress ok";
+}
+
 /* allocator with an injected failure: the k-th allocation attempt fails (once, or from k on) while oom_at > 0 */
 static int oom_at, oom_from, oom_cnt;
 static ppointer oom_malloc (psize n) { if (oom_at && (++oom_cnt == oom_at || (oom_from && oom_cnt > oom_at))) return NULL; return malloc (n); }
@@ -304,7 +365,9 @@ int main (void) {
 			size_t chunk = strtoull (arg, NULL, 10); char *c2 = strchr (arg, ':');
 			char *c3 = c2 ? strchr (c2 + 1, ':') : NULL, *c4 = c3 ? strchr (c3 + 1, ':') : NULL;
 			unsigned long long total = c2 ? strtoull (c2 + 1, NULL, 10) : 1000000ULL;
-			puts (c4 ? stress_mp ((size_t) h, chunk, total, atoi (c3 + 1), atoi (c4 + 1)) : stress ((size_t) h, chunk, total));
+			char *c5 = c4 ? strchr (c4 + 1, ':') : NULL;
+			if (c5 && !strcmp (c5 + 1, "clr")) puts (stress_clear ((size_t) h, chunk, (int) total));      /* CAP CHUNK:ROUNDS:0:0:clr */
+			else puts (c4 ? stress_mp ((size_t) h, chunk, total, atoi (c3 + 1), atoi (c4 + 1)) : stress ((size_t) h, chunk, total));
 		}
 		else if (!strcmp (op, "pos") && n == 1) {
 			if (!spy) puts ("none");
